@@ -419,14 +419,7 @@ def _ffi(ctx, cf, fn, rel, q, cname, tu, frame):
 
 def r5_voxel_invariants(ctx, cf):
     """Two invariants of the voxel grid that are visible in the code: a voxel size is never set to zero, and the periodic voxel ranges are clamped to one period after every other adjustment."""
-    ctor = cf.function(NL, "Voxels")
-    g = C.guards(ctor)
-    for ax, lo, hi in (("Y", "miny", "maxy"), ("Z", "minz", "maxz")):
-        asg = [n for n in C.walk(ctor) if n["kind"] == "BinaryOperator" and n.get("opcode") == "=" and _n(C.text(C.kids(n)[0])) in ("this.voxelSize%s" % ax, "voxelSize%s" % ax)
-               and _n(C.text(C.kids(n)[1])).replace("this.", "") == "((%s-%s)/ny)".replace("ny", "n" + ax.lower()) % (hi, lo)]
-        ok = bool(asg) and all(("(%s>%s)" % (hi, lo), True) in [(t.replace("this.", ""), p) for t, p in g.get(a["id"], [])] for a in asg)
-        ctx.decide(ok, "C10-R5", C.line(asg[0]) if asg else C.line(ctor), NL, "Voxels::Voxels", "voxelSize%s = (%s-%s)/n only when %s > %s" % (ax, hi, lo, hi, lo), "",
-                   "the non-periodic voxel size along %s is recomputed without the %s > %s guard: for atoms that share one %s coordinate it becomes 0 and every voxel index is garbage" % (ax.lower(), hi, lo, ax.lower()))
+    _voxel_sizes_by_value(ctx, cf)
     gn = cf.function(NL, "getNeighbors")
     for ax in ("y", "z"):
         loops = [n for n in C.walk(gn) if n["kind"] == "ForStmt" and _n(C.text(C.kids(n)[1])) == "(%s<=end%s)" % (ax, ax)]
@@ -446,6 +439,90 @@ def r5_voxel_invariants(ctx, cf):
         ctx.decide(ok, "C10-R5", C.line(clamp[0]) if clamp else C.line(lp), NL, "Voxels::getNeighbors", "periodic %s range clamped to one period (end <= start + n - 1) after all other adjustments" % ax, "",
                    "the clamp `end%s = min(end%s, start%s+n%s-1)` is %s: the loop can span more than n%s voxels and one voxel column is scanned twice (duplicate neighbours)"
                    % (ax, ax, ax, ax, "missing" if not clamp else "followed by another write to start%s/end%s" % (ax, ax), ax))
+
+
+def _voxel_sizes_by_value(ctx, cf):
+    """The constructor of Voxels evaluated by value numbering for usePeriodic = true and = false: on every path the voxel size along y / z
+    is the size asked for, or extent / n with an extent that is positive on that path - the box edge (periodic), or max - min of the atoms
+    on a path where max > min has been established.  (extent / n with max == min is 0: every voxel index computed from it is garbage.)"""
+    from ..symval import SymExec, State, Ptr, Unsupported, elementary_facts, has_fact
+    ctor = cf.function(NL, "Voxels")
+    ps = C.fparams(ctor)
+    names = [p_.get("name") for p_ in ps]
+    if len(names) != 8:
+        raise AnalysisError("Voxels::Voxels: %d parameters (8 expected)" % len(names))
+    vsy, vsz, miny, maxy, minz, maxz, box, per = names
+
+    def model(name, args, n, st, ex):
+        if name in ("resize", "assign", "clear", "push_back", "reserve"):
+            return Rat(Poly.const(0))
+        if name in ("max", "min") and len(args) == 2:
+            return ex.opaque_call(name, args)
+        return None
+    var = lambda n_: Rat(Poly.var(n_))     # noqa: E731
+    for periodic in (True, False):
+        ex = SymExec(cf, NL, call_model=model, symbolic_loops={"i", "j", "k"})
+        st = State()
+        for p_ in ps:
+            nm = p_.get("name")
+            st.env[nm] = Ptr(nm, 0) if ("[" in C.qtype(p_) or "*" in C.qtype(p_)) else st.sym(nm)
+        st.env[per] = Rat(Poly.const(1 if periodic else 0))
+        fields = {}
+        try:
+            for k in C.kids(ctor):
+                if k["kind"] == "CXXCtorInitializer":
+                    fld = (k.get("anyInit") or {}).get("name")
+                    try:
+                        st.env["this." + fld] = ex.expr(C.kids(k)[0], st)
+                        fields[fld] = st.env["this." + fld]
+                    except Unsupported:
+                        pass
+            for fld in ("periodicBoxSize", "recipBoxSize"):
+                st.env["this." + fld] = Ptr("this." + fld, 0)
+            outs = ex.run(C.kids(C.body_of(ctor)), st)
+        except Unsupported as e:
+            ctx.undecided("C10-R5", C.line(ctor), NL, "Voxels::Voxels", "voxel sizes, usePeriodic=%s" % periodic, "not evaluable: %s" % e)
+            continue
+        # the two size fields: the members initialised from the first two parameters
+        size_fields = [f for f, v in fields.items() if isinstance(v, Rat) and v == var(vsy)] + [f for f, v in fields.items() if isinstance(v, Rat) and v == var(vsz)]
+        if len(size_fields) != 2:
+            ctx.undecided("C10-R5", C.line(ctor), NL, "Voxels::Voxels", "voxel sizes", "the members initialised from (%s, %s) were not found" % (vsy, vsz))
+            continue
+        for ax, fld, asked, lo, hi, edge in (("y", size_fields[0], var(vsy), var(miny), var(maxy), 1), ("z", size_fields[1], var(vsz), var(minz), var(maxz), 2)):
+            bad = None
+            for o in outs:
+                v = o.env.get("this." + fld)
+                if v is None or not isinstance(v, Rat):
+                    bad = bad or "the voxel size along %s has no scalar value on a path" % ax
+                    continue
+                if v == asked:
+                    continue
+                facts = []
+                for (cv, pol), (txt, _p) in zip(o.cexprs, o.cvals):
+                    facts += elementary_facts(ex, cv if cv is not None else txt, pol)
+                num = Rat(v.n)      # numerator of extent / n
+                box_edge = var("%s[(%d, %d)]" % (box, edge, edge))
+
+                def prop(a_, b_):
+                    """a_ == c * b_ for a positive constant c"""
+                    pa, pb = a_.poly(), b_.poly()
+                    if pa is None or pb is None or not pb.t:
+                        return False
+                    mono = sorted(pb.t)[0]
+                    if mono not in pa.t:
+                        return False
+                    c_ = pa.t[mono] / pb.t[mono]
+                    return c_ > 0 and a_ == b_ * Rat(Poly.const(c_))
+                if periodic and prop(num, box_edge):
+                    continue
+                if prop(num, hi - lo) and has_fact(facts, "<", lo - hi):
+                    continue
+                if prop(num, hi - lo) and not has_fact(facts, "<", lo - hi):
+                    bad = bad or "the voxel size along %s becomes (%s - %s) / n on a path where %s > %s has not been established: for atoms that share one %s coordinate it is 0 and every voxel index is garbage" % (ax, hi, lo, hi, lo, ax)
+                else:
+                    bad = bad or "the voxel size along %s becomes %r" % (ax, v)
+            ctx.decide(bad is None, "C10-R5", C.line(ctor), NL, "Voxels::Voxels", "usePeriodic=%s: the voxel size along %s stays positive (asked size, box edge / n, or (max - min) / n only when max > min)" % (periodic, ax),
+                       "%d paths" % len(outs), bad or "")
 
 
 def _triclinic_by_paths(cf, fn, outer):
